@@ -920,18 +920,26 @@ func (x *sqlExec) runInsert(s *insertStmt, outer *scope) (*relation, int64, erro
 			return nil, 0, pgErr("42P10", "there is no unique or exclusion constraint matching the ON CONFLICT specification", "")
 		}
 	}
-	// lock phase
-	var lockKeys []rowKey
+	// lock phase, row by row in the order of the VALUES list / the SELECT: PostgreSQL inserts (and, on a
+	// conflict under DO UPDATE, locks the existing row of) one proposed row after the other. Taking the free
+	// keys of the whole statement first made two writers that sort their rows the same way - as the repository
+	// does, precisely to stay deadlock-free - close a wait-for cycle no server would see (false alarm of the
+	// thorough tier, C25 seed 18: DESIGN 15.24).
 	for _, r := range rows {
-		lockKeys = append(lockKeys, r.key)
+		if x.get(r.key) != nil && s.conflict != nil && !s.conflict.doNothing {
+			if err := x.sess.lockRow(r.key); err != nil {
+				return nil, 0, err
+			}
+		}
+		lockKeys := []rowKey{r.key}
 		for _, u := range r.uniq {
 			if u.aux != r.key {
 				lockKeys = append(lockKeys, u.aux)
 			}
 		}
-	}
-	if err := x.lockAllInsert(lockKeys, def); err != nil {
-		return nil, 0, err
+		if err := x.lockAllInsert(lockKeys, def); err != nil {
+			return nil, 0, err
+		}
 	}
 	// apply phase
 	out := &relation{cols: x.returningCols(s.returning, def)}
@@ -1036,7 +1044,6 @@ func (x *sqlExec) runInsert(s *insertStmt, outer *scope) (*relation, int64, erro
 }
 
 func (x *sqlExec) lockAllInsert(keys []rowKey, def *tableDef) error {
-	sort.Slice(keys, func(i, j int) bool { return keys[i].String() < keys[j].String() })
 	for _, k := range keys {
 		if x.get(k) != nil {
 			// the key already exists (committed, or written by this transaction): the conflict is dealt with
